@@ -168,6 +168,7 @@ class GlomError(Exception):
         if set(self._tb_lines[0]) <= {' ', '^', '~'}:
             self._tb_lines = self._tb_lines[1:]
         self._scope = scope
+        self._finalized_str = None  # a copy of an already-rendered error must render its own trace
 
     def __str__(self):
         if getattr(self, '_finalized_str', None):
